@@ -521,7 +521,12 @@ func (m *Machine) call(caller *frame, pos token.Pos, fn Value, args []Value) Val
 	switch fn := fn.(type) {
 	case *Closure:
 		if fn == nil {
-			panic(m.goPanic("invalid memory address or nil pointer dereference (call of nil func)"))
+			tp := m.goPanic("invalid memory address or nil pointer dereference (call of nil func)")
+			tp.pos = m.position(pos)
+			if caller != nil {
+				tp.pos += " in " + caller.fn.String()
+			}
+			panic(tp)
 		}
 		if fn.Native != nil {
 			m.stubs[fn.Name]++
